@@ -72,12 +72,10 @@ func chIsNative(k int) bool { return k >= cnFunc }
 // ran during a foreign panic, and a foreign panic from return() was swallowed); repaired, asserted by default.
 var chStrictIterateForeign = os.Getenv("VERIF_C14_ITERATE_FOREIGN") != "0"
 
-// KNOWN DEVIATION (reported): Runtime.ForOf ("a Go equivalent of for-of loop") calls returnIter() unprotected when the step
-// callback has thrown a script exception, so an exception thrown by the iterator's return() SUPERSEDES the one that is being
-// propagated; in a for-of loop (ECMA-262 IteratorClose with a throw completion) the original exception wins. The host /
-// the next catch block then sees return()'s value, not the value that was thrown. By default the model follows goja here;
-// VERIF_C14_FOROF_GO_ORIGINAL_WINS=1 asserts for-of semantics.
-var chForOfOriginalWins = os.Getenv("VERIF_C14_FOROF_GO_ORIGINAL_WINS") == "1"
+// Runtime.ForOf ("a Go equivalent of for-of loop"): when the step callback has thrown a script exception the iterator is
+// closed and the ORIGINAL exception goes on, whatever return() throws (ECMA-262 IteratorClose with a throw completion).
+// goja used to call returnIter() unprotected there, so return()'s exception superseded the one being propagated; repaired.
+var chForOfOriginalWins = os.Getenv("VERIF_C14_FOROF_GO_ORIGINAL_WINS") != "0" // goja repaired: asserted by default
 
 var chStrictForOf = os.Getenv("VERIF_C14_FOROF_STACK") != "0" // goja repaired (commit 941aac2): asserted by default
 
